@@ -5,6 +5,7 @@ import (
 	"errors"
 	"fmt"
 	"sort"
+	"strings"
 	"time"
 
 	"github.com/weedbox/pokerface"
@@ -23,37 +24,40 @@ const (
 )
 
 type tableCfg struct {
-	seats        int
-	rule         string
-	mode         string
-	minPlayers   int
-	ante         int64
-	dealerB      int64
-	sb           int64
-	bb           int64
-	actionTime   int
-	interval     int
-	nPlayers     int
-	horizonMs    int64
-	faultEndMs   int64
-	admin        bool // admin interventions enabled
-	pauseClose   bool // external pause/close/release requests enabled
-	leaves       bool
-	topups       bool
-	lateJoin     bool
-	blindOps     bool
-	rogue        bool
-	backendF     bool
-	judge        bool // wrap client calls in judged (atomic before/after) sections
-	withhold     int  // per-mille probability that a client withholds an answer during the fault window
-	netFaults    bool
-	allinBias    int
-	preJoin      bool // players given in CreateTable setting
-	midLeave     bool // allow a dealt-in player to leave while the hand runs (known finding territory)
-	slowSub      bool
-	atomicCalls  bool // harness calls run as atomic (judgeable) sections; false = they interleave with the engine at statement level
-	slowSubOneIn int
-	stampede     bool // C16: every participant submits game actions at every turn, concurrently and in duplicate
+	seats          int
+	rule           string
+	mode           string
+	minPlayers     int
+	ante           int64
+	dealerB        int64
+	sb             int64
+	bb             int64
+	actionTime     int
+	interval       int
+	nPlayers       int
+	horizonMs      int64
+	faultEndMs     int64
+	admin          bool // admin interventions enabled
+	pauseClose     bool // external pause/close/release requests enabled
+	leaves         bool
+	topups         bool
+	lateJoin       bool
+	blindOps       bool
+	rogue          bool
+	backendF       bool
+	judge          bool // wrap client calls in judged (atomic before/after) sections
+	withhold       int  // per-mille probability that a client withholds an answer during the fault window
+	netFaults      bool
+	allinBias      int
+	preJoin        bool // players given in CreateTable setting
+	midLeave       bool // allow a dealt-in player to leave while the hand runs (known finding territory)
+	slowSub        bool
+	atomicCalls    bool // harness calls run as atomic (judgeable) sections; false = they interleave with the engine at statement level
+	slowSubOneIn   int
+	churn          bool
+	noRebuy        bool // busted players stay seated without chips (bystanders in front of the others)
+	frontBystander bool
+	stampede       bool // C16: every participant submits game actions at every turn, concurrently and in duplicate
 }
 
 type delivery struct {
@@ -94,7 +98,9 @@ type tableWorld struct {
 	alignWake                            chan struct{}
 	alignWake2                           chan struct{}
 	chaseWake                            chan int64 // a slow delivery is holding the engine lock for this long
-	foc                                  string     // the property whose neighbourhood this run's workload is biased towards
+	handEndWake                          chan struct{}
+	forceSlowMs                          int64
+	foc                                  string // the property whose neighbourhood this run's workload is biased towards
 	rogueWake                            chan struct{}
 	lastRogueKey                         int64
 }
@@ -195,6 +201,8 @@ func (w *tableWorld) drawCfg() {
 	g.allinBias = []int{8, 0, 30, 80}[c.CfgInt("allin_i", 0, 3)]
 	g.preJoin = c.CfgBool("prejoin", 1, 4)
 	g.midLeave = g.leaves && c.CfgBool("mid_leave", 1, 10)
+	g.churn = g.admin && c.CfgBool("churn", 1, 5)
+	g.frontBystander = c.CfgBool("front_bystander", 1, 12)
 	g.slowSub = c.CfgBool("slow_subscriber", 1, 10)
 	g.slowSubOneIn = 40
 	// focus-specific bias
@@ -219,6 +227,21 @@ func (w *tableWorld) drawCfg() {
 		g.rogue, g.judge = true, true
 	case f("C01"):
 		g.admin, g.topups = true, true
+	case f("C02"):
+		// membership changes queued behind a lock that a slow listener keeps held while the hand ends
+		g.admin, g.leaves = true, true
+		g.topups = true
+		g.churn = c.CfgBool("c02_churn", 2, 3)
+		g.frontBystander = c.CfgBool("c02_front_bystander", 1, 2)
+		if c.CfgBool("c02_busts", 1, 2) {
+			g.allinBias = 80 // busted players stay seated as bystanders in front of the others in the list
+			g.noRebuy = true
+			if g.nPlayers < 5 && g.seats >= 6 {
+				g.nPlayers = 6
+			}
+		}
+		g.slowSub = c.CfgBool("c02_slow_listeners", 1, 2)
+		g.slowSubOneIn = 3
 	}
 	if f("C08", "C11", "C13") {
 		g.midLeave = false
@@ -331,6 +354,11 @@ func (w *tableWorld) Run(c *Ctx) {
 	}
 	if !g.preJoin {
 		usedSeat := map[int]bool{}
+		if g.frontBystander && g.nPlayers < g.seats {
+			// a seated player without chips at the front of the player list (never dealt in, never re-buys)
+			w.doReserve("root", pt.JoinPlayer{PlayerID: "z0", RedeemChips: 0, Seat: -1}, false)
+			w.doJoin("root", "z0")
+		}
 		for _, id := range ids {
 			seat := -1
 			if cs.Chance(1, 2) {
@@ -406,6 +434,11 @@ func (w *tableWorld) Run(c *Ctx) {
 		w.alignWake2 = make(chan struct{}, 1)
 		simrt.Go(0, "aligned", func() { w.alignedTask(w.alignWake, "admin.aligned") })
 		simrt.Go(0, "aligned2", func() { w.alignedTask(w.alignWake2, "admin.aligned2") })
+		if g.churn {
+			simrt.Go(0, "churn", w.churnTask)
+			w.handEndWake = make(chan struct{}, 1)
+			simrt.Go(0, "handend", w.handEndTask)
+		}
 		if g.pauseClose && g.slowSub {
 			w.chaseWake = make(chan int64, 1)
 			simrt.Go(0, "chaser", w.chaserTask)
@@ -456,6 +489,21 @@ func (w *tableWorld) hookCallbacks() {
 			}
 			w.seq = c.Seq()
 			w.mon.onSnapshot(snap, w.seq)
+			if gs := snap.State.GameState; gs != nil && snap.State.Status == pt.TableStateStatus_TableGamePlaying && gs.Status.CurrentEvent == "RoundClosed" && gs.Status.Round == "river" && w.handEndWake != nil {
+				// the last betting round has closed: the next thing the engine does by itself is the
+				// settlement. Interventions aimed at this instant queue with it on the engine lock.
+				if w.inFaultWindow() && w.netSt.Chance(1, 3) {
+					select {
+					case w.handEndWake <- struct{}{}:
+						// this subscriber is slow for this very snapshot: the engine's updater is parked here,
+						// holding no lock, while the interventions get hold of the engine lock
+						c.Fault("F8_slow_subscriber")
+						slow = int64(100 + w.netSt.Draw(200))
+						w.mon.slowness(slow)
+					default:
+					}
+				}
+			}
 			if snap.State.Status == pt.TableStateStatus_TableGameSettled {
 				select {
 				case w.alignWake <- struct{}{}:
@@ -475,7 +523,12 @@ func (w *tableWorld) hookCallbacks() {
 				default:
 				}
 			}
-			if w.cfg.slowSub && w.inFaultWindow() && w.netSt.Chance(1, w.cfg.slowSubOneIn) {
+			if w.forceSlowMs > 0 && slow == 0 {
+				c.Fault("F8_slow_subscriber")
+				slow = w.forceSlowMs
+				w.forceSlowMs = 0
+				w.mon.slowness(slow)
+			} else if w.cfg.slowSub && slow == 0 && w.inFaultWindow() && w.netSt.Chance(1, w.cfg.slowSubOneIn) {
 				c.Fault("F8_slow_subscriber")
 				slow = int64(1 + w.netSt.Draw(3000))
 				w.mon.slowness(slow)
@@ -504,11 +557,26 @@ func (w *tableWorld) hookCallbacks() {
 	eng.OnTableErrorUpdated(func(t *pt.Table, err error) {
 		simrt.Atomic(func() { w.mon.onErrorEvent(err) })
 	})
+	// listeners that the engine calls while it holds its lock (action published, seat reserved) can be
+	// slow as well (F8): whatever wants the lock meanwhile - a departure, the settlement - queues up
+	slowListener := func() {
+		if w.cfg.slowSub && w.inFaultWindow() && w.netSt.Chance(1, w.cfg.slowSubOneIn*2) {
+			var d int64
+			simrt.Atomic(func() {
+				c.Fault("F8_slow_listener")
+				d = int64(1 + w.netSt.Draw(2500))
+				w.mon.slowness(d)
+			})
+			simrt.Sleep(0, time.Duration(d)*time.Millisecond)
+		}
+	}
 	eng.OnGamePlayerActionUpdated(func(a pt.TablePlayerGameAction) {
 		simrt.Atomic(func() { w.mon.onActionEvent(a) })
+		slowListener()
 	})
 	eng.OnTablePlayerReserved(func(cid, tid string, ps *pt.TablePlayerState) {
 		simrt.Atomic(func() { w.mon.onReserved(ps.PlayerID, ps.Seat) })
+		slowListener()
 	})
 	eng.OnAutoGameOpenEnd(func(cid, tid string) {
 		c.Logf("AutoGameOpenEnd")
@@ -939,13 +1007,13 @@ func (w *tableWorld) doReserve(who string, jp pt.JoinPlayer, rebuy bool) error {
 	var err error
 	var before *memberSnap
 	var after *memberSnap
-	w.mon.topupInvoke(jp.PlayerID, jp.RedeemChips)
+	tu := w.mon.topupInvoke(jp.PlayerID, jp.RedeemChips)
 	atomic := w.section(func() {
 		before = w.mon.memberBefore()
 		err = w.eng.PlayerReserve(jp)
 		after = w.mon.memberBefore()
 	})
-	w.mon.memberAfter("reserve", before, after, atomic, err, []pt.JoinPlayer{jp}, nil)
+	w.mon.memberAfter("reserve", before, after, atomic, err, []pt.JoinPlayer{jp}, nil, tu)
 	w.ledgerInFlight--
 	w.memberInFlight--
 	c.Logf("RESERVE %s chips=%d seat=%d (%s) -> %v", jp.PlayerID, jp.RedeemChips, jp.Seat, who, err)
@@ -964,13 +1032,13 @@ func (w *tableWorld) doRedeem(id string, chips int64) error {
 	w.ledgerInFlight++
 	var err error
 	var before, after *memberSnap
-	w.mon.topupInvoke(id, chips)
+	tu := w.mon.topupInvoke(id, chips)
 	atomic := w.section(func() {
 		before = w.mon.memberBefore()
 		err = w.eng.PlayerRedeemChips(pt.JoinPlayer{PlayerID: id, RedeemChips: chips})
 		after = w.mon.memberBefore()
 	})
-	w.mon.memberAfter("redeem", before, after, atomic, err, []pt.JoinPlayer{{PlayerID: id, RedeemChips: chips}}, nil)
+	w.mon.memberAfter("redeem", before, after, atomic, err, []pt.JoinPlayer{{PlayerID: id, RedeemChips: chips}}, nil, tu)
 	w.ledgerInFlight--
 	c.Logf("REDEEM %s +%d -> %v", id, chips, err)
 	return err
@@ -988,7 +1056,12 @@ func (w *tableWorld) doLeave(ids []string) error {
 		err = w.eng.PlayersLeave(ids)
 		after = w.mon.memberBefore()
 	})
-	w.mon.memberAfter("leave", before, after, atomic, err, nil, ids)
+	for _, fn := range c.Sch.LockWaiters() {
+		if strings.Contains(fn, "settleGame") || strings.Contains(fn, "resetTableForNextGame") || strings.Contains(fn, "tableGameOpen") {
+			c.Probe("leave_done_while_" + fn[strings.LastIndex(fn, ".")+1:] + "_waits_for_engine_lock")
+		}
+	}
+	w.mon.memberAfter("leave", before, after, atomic, err, nil, ids, nil)
 	w.ledgerInFlight--
 	w.memberInFlight--
 	c.Logf("LEAVE %v -> %v", ids, err)
@@ -1014,7 +1087,7 @@ func (w *tableWorld) doUpdatePlayers(joins []pt.JoinPlayer, leaves []string) err
 		_, err = w.eng.UpdateTablePlayers(joins, leaves)
 		after = w.mon.memberBefore()
 	})
-	w.mon.memberAfter("update", before, after, atomic, err, joins, leaves)
+	w.mon.memberAfter("update", before, after, atomic, err, joins, leaves, nil)
 	w.ledgerInFlight--
 	w.memberInFlight--
 	c.Logf("UPDATEPLAYERS joins=%v leaves=%v -> %v", joins, leaves, err)
@@ -1051,6 +1124,9 @@ func (w *tableWorld) adminTask() {
 			parts[id] = true
 		}
 		for _, p := range tb.State.PlayerStates {
+			if strings.HasPrefix(p.PlayerID, "z") {
+				continue // the chipless front bystander is left alone by the admin
+			}
 			present = append(present, p.PlayerID)
 		}
 		_ = absentIDs
@@ -1066,7 +1142,7 @@ func (w *tableWorld) adminTask() {
 			}
 			w.doRedeem(id, int64(1+st.Draw(int(w.unit)*20+1)))
 		case 2: // re-buy (reserve of a seated player), prefer busted
-			if !g.topups || len(present) == 0 {
+			if !g.topups || len(present) == 0 || g.noRebuy {
 				continue
 			}
 			var busted []string
@@ -1330,7 +1406,13 @@ func (w *tableWorld) alignedTask(wake chan struct{}, stream string) {
 		}
 		ids := []string{}
 		for _, p := range tb.State.PlayerStates {
+			if strings.HasPrefix(p.PlayerID, "z") {
+				continue
+			}
 			ids = append(ids, p.PlayerID)
+		}
+		if len(ids) == 0 {
+			continue
 		}
 		c.Fault("F5_aligned_intervention")
 		closeW := 10
@@ -1405,6 +1487,112 @@ func (w *tableWorld) alignedTask(wake chan struct{}, stream string) {
 					w.eng.SetUpTableGame(tb.State.GameCount+1, parts)
 				}
 			}
+		}
+	}
+}
+
+// churnTask is a second service changing the membership (departures of bystanders, top-ups) on its own
+// schedule: membership calls of two tasks queue behind each other and behind the engine's own steps
+// (settlement, reset, open) on the engine lock.
+func (w *tableWorld) churnTask() {
+	c := w.c
+	g := w.cfg
+	st := c.St.Get("admin.churn")
+	for c.NowMs() < g.faultEndMs && !c.Stopped() {
+		simrt.Sleep(0, time.Duration([]int{50, 200, 600, 1500, 4000}[st.Draw(5)])*time.Millisecond)
+		if c.NowMs() >= g.faultEndMs || c.Stopped() {
+			break
+		}
+		tb := w.eng.GetTable()
+		if tb == nil || len(tb.State.PlayerStates) == 0 {
+			continue
+		}
+		parts := map[string]bool{}
+		for _, id := range rosterOf(tb) {
+			parts[id] = true
+		}
+		var ids, bystanders []string
+		for _, p := range tb.State.PlayerStates {
+			if !parts[p.PlayerID] {
+				bystanders = append(bystanders, p.PlayerID)
+			}
+			if strings.HasPrefix(p.PlayerID, "z") {
+				continue // never given chips: stays a bystander
+			}
+			ids = append(ids, p.PlayerID)
+		}
+		c.Fault("F5_churn")
+		switch st.Pick(40, 60) {
+		case 0:
+			if g.leaves && len(bystanders) > 0 && len(ids) > 2 {
+				if id := bystanders[st.Draw(len(bystanders))]; !strings.HasPrefix(id, "z") { // (kept for the hand-end task)
+					w.doLeave([]string{id})
+				}
+			}
+		case 1:
+			if g.topups {
+				w.doRedeem(ids[st.Draw(len(ids))], int64(1+st.Draw(int(w.unit)*10+1)))
+			}
+		}
+	}
+}
+
+// handEndTask fires two membership calls from two tasks at the instant the last betting round has
+// closed (F5 aimed at the settlement): a top-up whose listener may be slow, and the departure of a
+// bystander a moment later.
+func (w *tableWorld) handEndTask() {
+	c := w.c
+	g := w.cfg
+	st := c.St.Get("admin.handend")
+	for c.NowMs() < g.faultEndMs && !c.Stopped() {
+		select {
+		case <-w.handEndWake:
+		case <-time.After(5 * time.Second):
+			continue
+		}
+		if c.NowMs() >= g.faultEndMs || c.Stopped() {
+			continue
+		}
+		tb := w.eng.GetTable()
+		if tb == nil {
+			continue
+		}
+		parts := map[string]bool{}
+		for _, id := range rosterOf(tb) {
+			parts[id] = true
+		}
+		var ids, bystanders []string
+		for _, p := range tb.State.PlayerStates {
+			if !parts[p.PlayerID] {
+				bystanders = append(bystanders, p.PlayerID)
+			}
+			if strings.HasPrefix(p.PlayerID, "z") {
+				continue // never given chips: stays a bystander
+			}
+			ids = append(ids, p.PlayerID)
+		}
+		if len(ids) == 0 {
+			continue
+		}
+		c.Fault("F5_hand_end_intervention")
+		c.Logf("HAND-END intervention: players=%v bystanders=%v", ids, bystanders)
+		if g.topups {
+			id := ids[st.Draw(len(ids))]
+			amt := int64(1 + st.Draw(int(w.unit)*10+1))
+			if st.Chance(2, 3) {
+				w.forceSlowMs = int64(600 + st.Draw(1500)) // the top-up's own publication meets a slow subscriber: the lock stays taken
+			}
+			simrt.Go(0, "handend.topup", func() { w.doRedeem(id, amt) })
+		}
+		if g.leaves && len(bystanders) > 0 && len(ids) > 2 {
+			id := bystanders[st.Draw(len(bystanders))]
+			d := []int{0, 20, 350, 500}[st.Draw(4)]
+			simrt.Go(0, "handend.leave", func() {
+				if d > 0 {
+					simrt.Sleep(0, time.Duration(d)*time.Millisecond)
+				}
+				w.doLeave([]string{id})
+			})
 		}
 	}
 }
